@@ -258,6 +258,15 @@ func runC12_4(c *core.Ctx) {
 					case *ast.CallExpr:
 						if y == put {
 							s = sPut
+						} else if s == sPut && record && fieldHolder {
+							// a method called on the same object reads the pooled field inside
+							if r := flow.Recv(y); r != nil && flow.ObjOf(f.Info, r) == path.Root {
+								if cf := flow.CalleeFunc(f.Info, y); cf != nil {
+									if methodReadsField(c, cf, strings.TrimPrefix(path.Sel, "."), 3) {
+										bads = append(bads, bad{y.Pos(), exprStr(arg) + " is used by " + cf.Name() + "() after it was returned to the pool"})
+									}
+								}
+							}
 						}
 					case *ast.AssignStmt:
 						for _, l := range y.Lhs {
@@ -433,4 +442,36 @@ func runC12_6(c *core.Ctx) {
 				"a buffer is returned to the "+pool+" pool from a function that is not in the table of owners: memory still referenced elsewhere (or never obtained from the pool) may be recycled")
 		}
 	})
+}
+
+// methodReadsField reports whether the method mentions the named field of its
+// receiver, directly or through the methods it calls on the same receiver.
+func methodReadsField(c *core.Ctx, m *types.Func, field string, depth int) bool {
+	hf := fnOf(c, m)
+	if hf == nil || hf.Decl.Body == nil || hf.recvVar() == nil {
+		return false
+	}
+	recv := types.Object(hf.recvVar())
+	reads := false
+	ast.Inspect(hf.Decl.Body, func(n ast.Node) bool {
+		if reads {
+			return false
+		}
+		switch x := n.(type) {
+		case *ast.SelectorExpr:
+			if x.Sel.Name == field && flow.ObjOf(hf.Info, x.X) == recv {
+				reads = true
+			}
+		case *ast.CallExpr:
+			if depth > 0 {
+				if r := flow.Recv(x); r != nil && flow.ObjOf(hf.Info, r) == recv {
+					if cf := flow.CalleeFunc(hf.Info, x); cf != nil && cf != m && methodReadsField(c, cf, field, depth-1) {
+						reads = true
+					}
+				}
+			}
+		}
+		return true
+	})
+	return reads
 }
